@@ -212,7 +212,7 @@ Proof.
       rewrite N.mod_add by discriminate. symmetry. apply N.mod_small. lia. }
   rewrite (read_simple_has bs _ (nlen body) (nlen toc) Hlt ltac:(lia) ltac:(lia) Htr). cbn [obind].
   rewrite (read_u32_has bs _ 0 Hlt ltac:(reflexivity) Hcnt). cbn [obind N.eqb].
-  rewrite (N.mod_small (nlen body + nlen toc)) by lia.
+  rewrite (N.mod_small (nlen body + nlen toc)) by lia. cbn [f_len].
   replace (nlen body + nlen toc) with ((nlen body + 4) + nlen ents) by lia.
   unfold ents at 2. rewrite (read_tagged_entries bs tbl Hlt toc_tags _ _ [] Hents).
   - rewrite app_nil_r. reflexivity.
@@ -222,7 +222,7 @@ Proof.
       pose proof (toc_entry_len tbl t k Ht Hk') as Hl.
       apply (N.le_trans _ (1 + nlen t + 1 + nlen (rec_bytes (rec_for tbl t k)))); [lia|].
       apply N.eq_le_incl. symmetry. exact Hl. }
-    apply (Nat.le_trans _ (N.to_nat (nlen ents))); [|lia].
+    apply (Nat.le_trans _ (N.to_nat (nlen ents))); [|rewrite (N.mod_small (nlen bs)) by lia; lia].
     change (@length (tag * N) toc_tags) with (@length (list N * N) toc_tags).
     unfold nlen in Hge at 1. lia.
   - exact Hok.
